@@ -12,6 +12,10 @@ ASSUMPTIONS = ['targets: fill areas and the target box have extents and far edge
 TRUSTED = ['targets: the native reference target of the harness (harness/src/util.rs NativeTarget) is the documented meaning of '
            'fill_contiguous / fill_solid / clear']
 PARTIAL = []
+# Properties/C01_targets_bridge.v (no dynamic part of its own): C01_bridge_rrect_* / C01_bridge_image_* identify the private
+# target semantics of the rounded-rectangle and image parts with Model/Target.v's render (both kinds of target);
+# C01_text_calls_fit / C01_text_render_target / C01_text_default_native: every fill area Text::draw forwards fits, so
+# C01_targets_render_default_native applies to text with input-level hypotheses only (font_ok, text_in_range).
 
 
 def cases(tier, rng):
